@@ -65,7 +65,6 @@ Definition s_tilde : str := [126].
 Definition s_comma : str := [44].
 Definition s_space : str := [32].
 Definition s_not : str := [110; 111; 116; 40].                 (* 'not(' *)
-Definition s_selector_suffix : str := [45; 115; 101; 108; 101; 99; 116; 111; 114].   (* '-selector' *)
 Definition s_plusminus : str := [43; 45].                      (* '+-' *)
 
 (* ------------------------------------------------------- _prepare_tokens *)
@@ -168,7 +167,7 @@ Definition append (s : st) (val : str) (typ : ityp) : st :=
     end in
   let s0 := set_pfx s None in
   let falsy := match prefix with None => true | Some p => is_nil p end in
-  let needs_ns := (ends_with s_selector_suffix (ityp_name typ) || ityp_eqb typ I_universal)
+  let needs_ns := (ityp_is_selector typ || ityp_eqb typ I_universal)
                   && negb (ityp_eqb typ I_attribute_selector && falsy) in
   let nsr : option (option nsv) :=
     if needs_ns then
@@ -238,10 +237,12 @@ Definition p_namespace_prefix (s : st) (val : str) : st :=
   else if has W_type_selector s then ret (save_prefix s val) ret__namespace_prefix_1
   else ret (bad s) ret__namespace_prefix_2.
 
+Definition is_legacy (v : str) : bool := existsb (str_eqb v) legacy_pseudo_elements.   (* val in (':first-line', ...) *)
+
 Definition p_pseudo (s : st) (rawval : str) (element : bool) : st :=
   let val := normalize rawval in
   if has W_pseudo s then
-    let element' := element || existsb (str_eqb val) legacy_pseudo_elements in
+    let element' := element || is_legacy val in
     let s1 := append s val (if element' then I_pseudo_element else I_pseudo_class) in
     if ends_with s_lparen val then ret (push s1 (if element' then CPseudoElement else CPseudoClass)) ret__pseudo_0
     else if is_ctx s CNegation then ret s1 ret__pseudo_1
@@ -597,3 +598,55 @@ Fixpoint r_rest (sp : spelling) (i : nat) (l : list (comb * compound)) : list to
   end.
 Definition render (sp : spelling) (s : selector) : list tok :=
   gap sp 0 ++ r_compound (sub sp 1) (fst s) ++ r_rest (sub sp 2) 0 (snd s) ++ gap sp 3.
+
+(* ---- side conditions of the tree / spelling (decidable; they say that the strings
+   are what the tokenizer can deliver at those places) *)
+Definition vok (v : str) : bool :=           (* a token value that is not itself one of the regrouping triggers *)
+  negb (is_nil v) && negb (starts_with s_colon v) && negb (str_eqb v s_dot)
+  && negb (str_eqb v s_star) && negb (str_eqb v s_bar).
+Definition pval_ok (v : str) : bool :=       (* normalised pseudo value: no function, not '[' *)
+  negb (ends_with s_lparen v) && negb (str_eqb s_lbracket v).
+Definition pfn_ok (v : str) : bool :=
+  ends_with s_lparen v && negb (str_eqb s_lbracket v) && negb (is_legacy v).
+Definition pc_ok (n : str) : bool :=
+  vok n && pval_ok (normalize (s_colon ++ n))
+  && negb (is_legacy (normalize (s_colon ++ n))).
+Definition fn_ok (f : str) : bool := vok f && negb (is_not_fn f) && pfn_ok (normalize (s_colon ++ f)).
+Definition notw_ok (w : str) : bool :=
+  vok w && str_eqb (normalize w) s_not && str_eqb (normalize (s_colon ++ w)) (s_colon ++ s_not).
+Definition arg_ok (a : arg) : bool :=
+  match a with
+  | ArgNum v | ArgDim v | ArgStr v | ArgIdent v => vok v
+  | ArgPlus | ArgMinus => true
+  end.
+Definition args_ok (l : list arg) : bool := negb (is_nil l) && forallb arg_ok l.
+Definition atom_ok (a : atom) : bool :=
+  match a with
+  | AId h => vok h
+  | AClass n => vok n
+  | AAttr _ n ov => vok n && match ov with None => true | Some (_, AvIdent v) => vok v | Some (_, AvString v) => vok v end
+  | APClass n => pc_ok n
+  | APFn f args => fn_ok f && args_ok args
+  end.
+Definition negarg_ok (n : negarg) : bool :=
+  match n with NAtom a => atom_ok a | NType _ name => vok name | NUniv _ => true end.
+Definition part_ok (p : part) : bool := match p with PAtom a => atom_ok a | PNot n => negarg_ok n end.
+Definition head_ok (h : head) : bool := match h with HType _ n => vok n | _ => true end.
+Definition pelem_ok (e : pelem) : bool :=
+  match e with
+  | PE true n None => vok n && pval_ok (normalize (s_colon2 ++ n))
+  | PE false n None => vok n && pval_ok (normalize (s_colon ++ n))
+                       && is_legacy (normalize (s_colon ++ n))
+  | PE true f (Some args) => vok f && pfn_ok (normalize (s_colon2 ++ f)) && args_ok args
+  | PE false f (Some args) => false          (* there is no legacy functional pseudo-element *)
+  end.
+Definition compound_empty (c : compound) : bool :=
+  match chead c, cparts c, cpe c with HNone, [], None => true | _, _, _ => false end.
+Definition compound_ok (c : compound) : bool :=
+  head_ok (chead c) && forallb part_ok (cparts c) && match cpe c with Some e => pelem_ok e | None => true end
+  && negb (compound_empty c).
+Definition sel_ok (s : selector) : bool :=
+  compound_ok (fst s) && forallb (fun cc => compound_ok (snd cc)) (snd s).
+Definition filler_ok (f : filler) : bool := match f with FS w => vok w | FC c => vok c end.
+Definition sp_ok (sp : spelling) : Prop :=
+  forall p, forallb filler_ok (fill sp p) = true /\ notw_ok (notw sp p) = true /\ vok (descw sp p) = true.
